@@ -20,6 +20,9 @@
 
    Design "intended":  refCount = registered + reserved.  The initial children are reserved before they
                        are spawned, and a registration does not touch refCount.
+   Design "lostexit":  (named deviation) as "intended", but the goroutine that reaps a child does not WAIT for the master to
+                       take the exit notification: when the master is busy the notification is dropped (action ExitLost).
+                       TLC must refute Refill for it.
    Design "ascoded":   (named deviation = the original code)  refCount starts at 0 and every registration
                        OVERWRITES it with len(childs), losing reservations that are still in flight. *)
 EXTENDS Integers, Sequences, FiniteSets, TLC, Json
@@ -43,7 +46,7 @@ vars == <<live, childs, refCount, loops, pipe, waits, armed, wst, nextPid, reqs,
 
 Loop(n) == [left |-> n, pending |-> 0]
 Init == /\ live = {} /\ childs = <<>> /\ pipe = <<>> /\ waits = {} /\ armed = {} /\ wst = <<>>
-        /\ refCount = IF Design = "intended" THEN InitProcs ELSE 0
+        /\ refCount = IF Design # "ascoded" THEN InitProcs ELSE 0
         /\ loops = << Loop(InitProcs) >>
         /\ nextPid = 1 /\ reqs = 0 /\ faults = 0 /\ got = 0
 
@@ -70,7 +73,7 @@ MasterRecvAdd(s) ==
   /\ UNCHANGED <<live, childs, refCount, pipe, waits, armed, wst, nextPid, reqs, faults>>
 AddEffect(p) ==
   /\ childs' = [q \in Registered \cup {p} |-> IF q = p THEN "IDLE" ELSE childs[q]]
-  /\ refCount' = IF Design = "intended" THEN refCount ELSE Cardinality(Registered \cup {p})
+  /\ refCount' = IF Design # "ascoded" THEN refCount ELSE Cardinality(Registered \cup {p})
   /\ armed' = armed \cup {p}
   /\ waits' = IF p \notin live THEN waits \cup {p} ELSE waits       \* it died before it was registered
   /\ UNCHANGED <<live, pipe, wst, nextPid, reqs, faults>>
@@ -128,10 +131,15 @@ MasterDel(p) ==
      ELSE refCount' = rc /\ UNCHANGED loops
   /\ UNCHANGED <<live, pipe, armed, wst, nextPid, reqs, faults, got>>
 
+\* deviation "lostexit": an exit notification that nobody waits to deliver
+ExitLost(p) == /\ Design = "lostexit" /\ p \in waits
+               /\ waits' = waits \ {p}
+               /\ UNCHANGED <<live, childs, refCount, loops, pipe, armed, wst, nextPid, reqs, faults, got>>
+
 MasterStep == (\E s \in 1..Len(loops) : MasterRecvAdd(s)) \/ MasterAdd \/ MasterUpdate \/ (\E p \in Pids : MasterDel(p))
 SpawnStep == \E s \in 1..Len(loops) : SpawnStart(s)
 WorkerStep == \E p \in Pids : WorkerAccept(p) \/ WorkerDone(p) \/ WorkerTimeout(p) \/ WorkerCrash(p)
-Next == MasterStep \/ SpawnStep \/ WorkerStep
+Next == MasterStep \/ SpawnStep \/ WorkerStep \/ (\E p \in Pids : ExitLost(p))
 Spec == Init /\ [][Next]_vars /\ WF_vars(MasterStep) /\ WF_vars(SpawnStep)
              /\ \A p \in Pids : WF_vars(WorkerDone(p)) /\ WF_vars(WorkerTimeout(p))
 
@@ -139,9 +147,9 @@ Spec == Init /\ [][Next]_vars /\ WF_vars(MasterStep) /\ WF_vars(SpawnStep)
 Bound == Cardinality(live) <= MaxProcs
 Reserved == LET RECURSIVE Sum(_) Sum(k) == IF k = 0 THEN 0 ELSE loops[k].left + Sum(k - 1) IN Sum(Len(loops))
 \* intended bookkeeping: refCount = registered + still to be registered (+ the registration being processed)
-Bookkeeping == Design = "intended" => refCount = Cardinality(Registered) + Reserved + (IF got # 0 THEN 1 ELSE 0)
-RefCountBounded == Design = "intended" => (refCount <= MaxProcs /\ refCount >= 0)
-LiveAccounted == Design = "intended" => Cardinality(live) <= refCount
+Bookkeeping == Design # "ascoded" => refCount = Cardinality(Registered) + Reserved + (IF got # 0 THEN 1 ELSE 0)
+RefCountBounded == Design # "ascoded" => (refCount <= MaxProcs /\ refCount >= 0)
+LiveAccounted == Design # "ascoded" => Cardinality(live) <= refCount
 TypeOK == /\ live \subseteq Pids /\ waits \subseteq Pids /\ \A q \in Registered : childs[q] \in States
 \* once requests and faults are used up, the pool returns to at least InitProcs live workers
 Quiet == reqs = NReq /\ faults = NFault
